@@ -11,10 +11,13 @@ import (
 	"encoding/json"
 	"fmt"
 	"io"
+	"mime"
+	"mime/multipart"
 	"net/http"
 	"os"
 	"os/exec"
 	"reflect"
+	goruntime "runtime"
 	"sort"
 	"strings"
 	"sync"
@@ -350,7 +353,10 @@ type call struct {
 	RespType string // content type the echo server answers with
 	OpClient bool
 	Timeout  bool
+	Upload   bool // multipart request: a form field and a file whose content is derived from Tok
 }
+
+func uploadContent(tok string) string { return "file content of " + tok + " " + strings.Repeat(tok, 8) }
 
 type echoRT struct{ tag string }
 
@@ -360,6 +366,20 @@ func (e echoRT) RoundTrip(req *http.Request) (*http.Response, error) {
 	if req.Body != nil {
 		body, _ = io.ReadAll(req.Body)
 		req.Body.Close()
+	}
+	if mt, params, err := mime.ParseMediaType(req.Header.Get("Content-Type")); err == nil && strings.HasPrefix(mt, "multipart/") {
+		// a canonical rendering of the parts (the boundary is random)
+		mr := multipart.NewReader(bytes.NewReader(body), params["boundary"])
+		canon := ""
+		for {
+			part, err := mr.NextPart()
+			if err != nil {
+				break
+			}
+			b, _ := io.ReadAll(part)
+			canon += fmt.Sprintf("[%s %q %s %s]", part.FormName(), part.FileName(), part.Header.Get("Content-Type"), b)
+		}
+		body = []byte(canon)
 	}
 	verifrt.P("stub:read")
 	want := req.Header.Get("X-Resp-Type")
@@ -384,13 +404,17 @@ func scenarioCalls(name string) []call {
 		return []call{{Tok: "AAA", RespType: "application/json"}, {Tok: "BBB", RespType: "text/plain"}}
 	case "op-client-vs-shared":
 		return []call{{Tok: "AAA", RespType: "application/json", OpClient: true}, {Tok: "BBB", RespType: "text/plain"}}
+	case "two-multipart-uploads":
+		return []call{{Tok: "AAA", RespType: "application/json", Upload: true}, {Tok: "BBB", RespType: "text/plain", Upload: true}}
+	case "upload-vs-json":
+		return []call{{Tok: "AAA", RespType: "text/plain", Upload: true}, {Tok: "BBB", RespType: "application/json"}}
 	case "three-calls":
 		return []call{{Tok: "AAA", RespType: "application/json"}, {Tok: "BBB", RespType: "text/plain"}, {Tok: "CCC", RespType: "application/json", OpClient: true}}
 	}
 	panic("unknown scenario " + name)
 }
 
-var scenarioNames = []string{"two-json-first-calls", "json-vs-text", "op-client-vs-shared", "three-calls"}
+var scenarioNames = []string{"two-json-first-calls", "json-vs-text", "op-client-vs-shared", "three-calls", "two-multipart-uploads", "upload-vs-json"}
 
 // submitOne performs one call and returns what the caller observed.
 // keptResp is a response a reader kept beyond ReadResponse (generated readers keep it inside API errors).
@@ -415,6 +439,10 @@ func submitKeep(rt *client.Runtime, c call) (string, *keptResp) {
 			_ = req.SetHeaderParam("X-Tok", c.Tok)
 			_ = req.SetHeaderParam("X-Resp-Type", c.RespType)
 			_ = req.SetQueryParam("t", c.Tok)
+			if c.Upload {
+				_ = req.SetFormParam("note", c.Tok)
+				return req.SetFileParam("file", runtime.NamedReader("dir/f-"+c.Tok+".txt", strings.NewReader(uploadContent(c.Tok))))
+			}
 			return req.SetBodyParam("body-" + c.Tok)
 		}),
 		Reader: runtime.ClientResponseReaderFunc(func(resp runtime.ClientResponse, cons runtime.Consumer) (interface{}, error) {
@@ -436,6 +464,9 @@ func submitKeep(rt *client.Runtime, c call) (string, *keptResp) {
 	if c.OpClient {
 		op.Client = &http.Client{Transport: echoRT{"opclient"}}
 	}
+	if c.Upload {
+		op.ConsumesMediaTypes = []string{"multipart/form-data"}
+	}
 	res, err := rt.Submit(op)
 	return fmt.Sprintf("%v err=%v", res, err), kept
 }
@@ -446,6 +477,9 @@ func expected(c call) string {
 		via = "opclient"
 	}
 	body := fmt.Sprintf("%q\n", "body-"+c.Tok) // JSON producer output
+	if c.Upload {
+		body = fmt.Sprintf("[note %q  %s][file %q text/plain; charset=utf-8 %s]", "", c.Tok, "f-"+c.Tok+".txt", uploadContent(c.Tok))
+	}
 	if c.RespType == "text/plain" {
 		return fmt.Sprintf("text:/base/echo/%s|%s|%s|%s|%s echo=%s err=<nil>", c.Tok, c.Tok, body, c.Tok, via, c.Tok)
 	}
@@ -724,7 +758,13 @@ func main() {
 			break
 		}
 		pb := 2
-		if len(scenarioCalls(name)) == 3 {
+		if strings.Contains(name, "upload") {
+			// four threads (two callers, two multipart writers) and pipe operations: bound 1 on every change
+			pb = 1
+			if r.Thorough() {
+				pb = 2
+			}
+		} else if len(scenarioCalls(name)) == 3 {
 			pb = 1
 			if r.Thorough() {
 				pb = 2
@@ -732,14 +772,18 @@ func main() {
 		} else if r.Thorough() {
 			pb = 3
 		}
-		m, err := sched.RunSharded(name, pb, 0)
+		maxFree := 0
+		if strings.Contains(name, "upload") {
+			maxFree = 2 // four threads blocking on pipes: also bound which thread runs after a block
+		}
+		m, err := sched.RunShardedFree(name, pb, 0, goruntime.NumCPU(), maxFree)
 		if err != nil {
 			fmt.Fprintln(os.Stderr, "internal error:", err)
 			os.Exit(2)
 		}
 		sched.Merge(r, m)
 		r.Nontrivial(m.Stats.Executions)
-		bounds[fmt.Sprintf("%s@preemptions<=%d", name, pb)] = int(m.Stats.Executions)
+		bounds[fmt.Sprintf("%s@preemptions<=%d,free<=%s", name, pb, map[bool]string{true: "unbounded", false: fmt.Sprint(maxFree)}[maxFree == 0])] = int(m.Stats.Executions)
 		if m.Stats.Stopped {
 			r.OutOfTime()
 		}
